@@ -22,12 +22,21 @@ ASSUMPTIONS = ["reference: harness/ref.py (plain Python ints: //, %, exact /, <<
                "comparison whose difference exceeds the bitlength, zero or inexact division, to_bits / >> / & of a too wide or negative "
                "value, a false assertion, assert_positive of a negative value) raises; programs whose configuration starts in ignore mode are "
                "still not judged",
+               "selections whose branches are FUNCTIONS, run through the library's own if_then_else(c, f, g) (gen/progs.py thunk_case; both / only "
+               "the then / only the else branch a function; c = 0 and 1; bodies with bit decompositions, shifts, bitwise operations, comparisons, "
+               "divisions, assertions, nested regions followed by more code of the body): the register of the branch taken and the selected "
+               "value are Python's, the registers of the branch not taken are unspecified; model-backed (two guarded regions and a selection)",
+               "an exception raised INSIDE a region and CAUGHT by the caller (gen/progs.py caught_region_case: `try: if_then_else(d != 0, lambda: "
+               "n // d, 0) except: ...` with d == 0, LinCombBool of a non-boolean value, a false assertion / inexact division in a live branch; "
+               "the region is the then / else function of a selection, taken or not, or a guarded() function), followed by ordinary operations: "
+               "in-domain operations give Python's values and out-of-domain operations raise, as in any run (direct oracle only: the program "
+               "model has no try/except; such cases are counted as unmodelled)",
                "totality is checked on operands inside the documented domain: all operand values, results and comparison differences "
                "satisfy |v| < 2^(bitlength-1); divisors non-zero; exact divisibility for '/'; bitwise/shift operands non-negative, "
                "shift counts and exponents below the bitlength"]
 PARTIAL = ["C05_program is for runs inside PyFragment (Spec/PyProg.lean, table Instr.pyExcl); excluded with reason: fixedPoint (C14), "
            "secretLiteral, guardRegion (code under a false guard is inert: C07), ignoreErrors, selectLists (selection between lists under a "
-           "secret condition zips/truncates), secretIndexElems (secret-index access composed for int / secret-int elements only), and the "
+           "secret condition: element-wise; lists of different lengths are refused with ValueError since the repair 1d9e8b8), secretIndexElems (secret-index access composed for int / secret-int elements only), and the "
            "recorded deviations invertSecretInt (C05-invert), boolPow (C05-bool-pow), boolBitwiseConst (C05-bool-bitwise-const), "
            "secretExponentWraps (C05-secret-exponent-mod-p: exactly when x**e, for shifts 2**e, is outside [0,p): C05_powWraps_exact); "
            "x >> n with a negative public n is inside the fragment since the repair of C05-rshift-negative (it raises, as Python does: "
@@ -114,7 +123,9 @@ def explore(ctx, extended=False, focus=None):
                "or raised; distinct = (operator, kinds, bitlength, error class)")
     n = ctx.n(5000, 100000) * (4 if extended else 1)
     mix = [(8, lambda rnd, cid, p: progs.op_case(rnd, cid, "valid", INT_OPS, KINDS, p=p)), (4, progs.edge_case), (2, progs.unop_case),
-           (1, progs.ite_case), (2, progs.chain_case), (2, progs.reuse_case), (2, progs.inplace_case), (1, progs.fieldsize_pow_case), (2, progs.ignore_toggle_case), (1, lambda rnd, cid, p: progs.method_case(rnd, cid, p, ["if_else", "val", "check_zero", "check_nonzero", "to_bits_rt"]))]
+           (1, progs.ite_case), (2, progs.chain_case), (2, progs.reuse_case), (2, progs.inplace_case), (1, progs.fieldsize_pow_case), (2, progs.ignore_toggle_case),
+           # selections whose branches are FUNCTIONS; exceptions raised inside a region (branch function, guarded()) and caught by the caller
+           (1, progs.thunk_case), (2, progs.caught_region_case), (1, lambda rnd, cid, p: progs.method_case(rnd, cid, p, ["if_else", "val", "check_zero", "check_nonzero", "to_bits_rt"]))]
     cases = corpus_cases("C05") + progs.generate(ctx.rnd, n, "c05x" if extended else "c05_", mix=mix)
     cases = [c for c in cases if c.cfg["ign"] == 0]
     for r in execute_all(cases):
@@ -125,12 +136,17 @@ def explore(ctx, extended=False, focus=None):
         mr = r.case.meta.get("must_raise")
         if r.case.meta.get("shape") == "ignore-toggle":
             ex.count(f"ignore-toggle:{r.case.meta['kinds']}:{'ends-' + (r.errcls or 'ok')}")
+        caught = r.case.meta.get("shape") == "caught-in-region"
+        if caught:
+            ex.count(f"caught-in-region:{r.case.meta['op']}:{r.case.meta['kinds']}:{'caught-' + r.fields.get('CAUGHT', '').split(':')[-1] if r.fields.get('CAUGHT') else 'nothing-raised'}")
         if mr is not None and (r.ok or r.errpos > mr):
-            # error checking was switched back on through ignore_errors(False) before this instruction: it is outside the documented
-            # domain and must raise as in any checks-on run
-            sig = instr_sig(r.case, r.regs, mr); sig["dev"] = "returns-where-checks-on-raises"; sig["mode"] = "ignore-errors-switched-off-again"
+            # error checking was switched back on through ignore_errors(False) before this instruction (or: an exception raised inside a
+            # region was caught by the caller before it): it is outside the documented domain and must raise as in any checks-on run
+            sig = instr_sig(r.case, r.regs, mr); sig["dev"] = "returns-where-checks-on-raises"
+            sig["mode"] = "after-exception-caught-in-region" if caught else "ignore-errors-switched-off-again"
             sig["pattern"] = r.case.meta["kinds"]
-            ex.violations.append(Violation(sig, f"after `set ign 0` (ignore_errors(False)) r{mr} ({r.case.instrs[mr]}) returned "
+            after = f"after the exception raised in a region ({r.case.meta['kinds']}: {r.case.meta['op']}) was caught" if caught else "after `set ign 0` (ignore_errors(False))"
+            ex.violations.append(Violation(sig, f"{after} r{mr} ({r.case.instrs[mr]}) returned "
                                                 f"{r.regs[mr][:60] if mr < len(r.regs) else '?'} where a run with error checking on raises "
                                                 f"({r.case.meta['op']})", {"case": r.case.line(), "instruction": mr}))
             continue
@@ -142,6 +158,10 @@ def explore(ctx, extended=False, focus=None):
             if d:
                 deviated = True
                 sig = instr_sig(r.case, r.regs, i); sig["dev"] = "wrong-value"
+                if caught:
+                    sig["mode"] = "after-exception-caught-in-region"; sig["pattern"] = r.case.meta["kinds"]
+                elif r.case.meta.get("shape") == "thunk":
+                    sig["mode"] = "selection-with-branch-functions"; sig["pattern"] = r.case.meta["kinds"].split(":")[0]
                 if "X" in sig["operands"] or "F" in sig["operands"]:
                     ex.count("skipped:fixed-point-operand (C14's subject)")
                     break
